@@ -68,8 +68,13 @@ def do_replay(pid, path):
     with core.quiet():
         o2 = mod.replay(v)
     if json.dumps(o1, sort_keys=True, default=str) != json.dumps(o2, sort_keys=True, default=str):
-        print('REPLAY NONDETERMINISTIC')
-        return 2
+        hd = [o for o in (o1, o2) if isinstance(o, dict) and 'power_up_states_agree' in o]
+        if len(hd) == 2 and (o1.get('violates') or o2.get('violates')):
+            # a history-dependence finding: that two replays in one process differ IS the finding
+            o1 = dict(o1 if o1.get('violates') else o2, second_replay_in_the_same_process_differs=True)
+        else:
+            print('REPLAY NONDETERMINISTIC')
+            return 2
     print(json.dumps(o1, indent=1, default=str))
     bad = o1.get('violates') if isinstance(o1, dict) else None
     if bad:
